@@ -218,9 +218,32 @@ class PageWorld:
             for rec in q:
                 if rec["kind"] == "pflush":
                     self._judge_flush(rec, dirty_now)
+                elif rec["kind"] == "wr":
+                    self._judge_write(rec, pages)
         if len(self.states) < 96:
             kinds = ",".join(sorted(r["kind"] for r in self.inflight.values()))
             self.states.add(f"{pc.pages_cached}|d{len(dirty_now)}|{kinds}")
+
+    def _judge_write(self, rec, pages):
+        """An acknowledged write_page(P) leaves P cached and dirty (it stays so until a write-back of P is accounted,
+        which the per-delivery rule above watches).  Judged in the delivery in which write_page returned."""
+        pg = pages.get(rec["key"])
+        if pg is None or not pg.dirty:
+            state = "page-not-cached" if pg is None else "page-cached-clean"
+            overl = any(o["kind"] == "rd" and o["key"] == rec["key"] and o["inv"] < rec["ret"]
+                        and (o["ret"] is None or o["ret"] > rec["inv"]) for o in self.hist.ops)
+            raise Violation(f"{P}/writeback-lost/PageCache/acknowledged-write-not-dirty/{state}"
+                            + ("-after-overlapping-read-of-the-page" if overl else ""),
+                            f"write_page({rec['key']}) invoked at t={rec['t_inv']}ns returned at t={rec['t_ret']}ns but the page "
+                            f"is {state.replace('-', ' ')}: nothing will ever write it back "
+                            f"(cached: {list(pages)}, dirty: {sorted(p for p, x in pages.items() if x.dirty)})")
+        if rec["t_ret"] > rec["t_inv"]:
+            self.probe("probe.page_write_miss_waited_for_room")
+            if any(o["kind"] == "rd" and o["key"] == rec["key"] and rec["inv"] < (o["ret"] or 1 << 60) < rec["ret"]
+                   for o in self.hist.ops):
+                # a read of the same page completed (cached it clean) while this write miss was waiting for a
+                # dirty victim's write-back
+                self.probe("probe.page_read_landed_inside_write_miss_wait")
 
     def _judge_flush(self, rec, dirty_now):
         """Pages dirty when flush() was invoked and not written again since must be clean (or gone) when it returns."""
